@@ -400,3 +400,178 @@ def custom_vjp(case, ctx):
   nparams = len(jax.tree_util.tree_leaves(V))
   ctx.note(labels=['stateful' if state_cols else 'stateless'],
            nontrivial=nparams >= 2)
+
+
+# ----------------------------------------------------------------------------
+# differentiation over several scopes: nn.vjp(multi_scope=True) on a module
+# that holds modules handed in from outside, lift.vjp over a tuple of scopes
+class MSLin(nn.Module):
+  c: float = 0.1
+  dout: int = 2
+
+  @nn.compact
+  def __call__(self, x):
+    def init(k, s):
+      return jnp.full(s, self.c) + 0.01 * jnp.arange(
+          int(np.prod(s)), dtype=jnp.float32).reshape(s)
+    w = self.param('w', init, (x.shape[-1], self.dout))
+    return x @ w
+
+
+class MSNest(nn.Module):
+  depth: int = 1
+  c: float = 0.1
+  dout: int = 2
+
+  def setup(self):
+    if self.depth <= 1:
+      self.leaf = MSLin(self.c, self.dout)
+    else:
+      self.sub = MSNest(self.depth - 1, self.c, self.dout)
+
+  def leaf_module(self):
+    return self.leaf if self.depth <= 1 else self.sub.leaf_module()
+
+
+def _ms_prog(mdl, x):
+  h = sum(jnp.tanh(m(x)) * (j + 1) for j, m in enumerate(mdl.shared))
+  return MSLin(0.3, 2, name='out')(h)
+
+
+class MSHead(nn.Module):
+  shared: tuple = ()
+  lifted: bool = False
+
+  @nn.compact
+  def __call__(self, x, ct):
+    if not self.lifted:
+      return _ms_prog(self, x)
+    y, bwd = nn.vjp(_ms_prog, self, x, multi_scope=True)
+    var_cts, x_ct = bwd(ct)
+    return y, var_cts, x_ct
+
+
+class MSTop(nn.Module):
+  depths: tuple = (1,)
+  lifted: bool = False
+
+  def setup(self):
+    mods = []
+    for j, d in enumerate(self.depths):
+      if d == 0:
+        m = MSLin(0.1 * (j + 1), 3)
+        setattr(self, f's{j}', m)
+      else:
+        n = MSNest(d, 0.1 * (j + 1), 3)
+        setattr(self, f'n{j}', n)
+        m = n.leaf_module()
+      mods.append(m)
+    self.head = MSHead(shared=tuple(mods), lifted=self.lifted)
+
+  def __call__(self, x, ct):
+    return self.head(x, ct)
+
+
+def _ms_path(j, d):
+  return [f's{j}'] if d == 0 else [f'n{j}'] + ['sub'] * (d - 1) + ['leaf']
+
+
+@clause('multi_scope_vjp',
+        strategy=lambda: st.fixed_dictionaries({
+            'depths': st.lists(st.integers(0, 3), min_size=1, max_size=3),
+            'core_depths': st.lists(st.integers(1, 3), min_size=2, max_size=3),
+            'din': st.integers(1, 4), 'seed': st.integers(0, 2**16)}),
+        quick=60, thorough=2000, quick_shards=6, thorough_shards=16,
+        shrink=False,
+        rule='(linen) a module differentiating with nn.vjp(multi_scope=True) '
+        'a program that uses 1-3 modules handed in from outside, each living '
+        '0-3 levels deep elsewhere in the module tree: primal output and input '
+        'cotangent equal jax.vjp of the pure apply; the returned per-scope '
+        'cotangents are, as a collection, the jax.vjp cotangents of the '
+        'outside modules\' and the module\'s own params, and their positions '
+        'do not depend on how deep the outside modules live (same list as '
+        'the all-top-level placement); (core) lift.vjp over a tuple of 2-3 '
+        'scopes at depths 1-3 returns cotangent i for scope i of the tuple; '
+        'non-trivial = >=2 outside modules at different depths')
+def multi_scope_vjp(case, ctx):
+  depths = tuple(case['depths'])
+  rng = np.random.default_rng(case['seed'])
+  x = jnp.asarray(rng.normal(size=(case['din'],)), jnp.float32)
+  ct = jnp.asarray(rng.normal(size=(2,)), jnp.float32)
+
+  def run(dp):
+    with sut('init'):
+      V = unfreeze(MSTop(dp, False).init(jax.random.key(0), x, ct))
+    with sut('nn.vjp(multi_scope=True)'):
+      y, cts, x_ct = MSTop(dp, True).apply(V, x, ct)
+    y_ref, pull = jax.vjp(lambda v, xx: MSTop(dp, False).apply(v, xx, ct),
+                          V, x)
+    v_ref, x_ref = pull(ct)
+    require(close(y, y_ref), 'multi_scope vjp: primal output differs')
+    require(close(x_ct, x_ref), 'multi_scope vjp: input cotangent differs')
+    want = []
+    for j, d in enumerate(dp):
+      node = v_ref['params']
+      for k in _ms_path(j, d):
+        node = node[k]
+      want.append({'params': node})
+    want.append({'params': v_ref['params']['head']})
+    cts = [unfreeze(c) for c in cts]
+    require(len(cts) == len(want), lambda: f'{len(cts)} cotangent trees for '
+            f'{len(want)} scopes')
+    left = list(range(len(want)))
+    for c in cts:
+      hit = next((i for i in left if same_struct(c, want[i])
+                  and close(c, want[i])), None)
+      require(hit is not None, lambda: 'a returned per-scope cotangent '
+              f'{jax.tree_util.tree_map(np.shape, c)} is not the jax.vjp '
+              'cotangent of any of the differentiated scopes')
+      left.remove(hit)
+    return cts
+
+  got = run(depths)
+  flat = run(tuple(0 for _ in depths))
+  for i, (a, b) in enumerate(zip(got, flat)):
+    require(same_struct(a, b) and close(a, b), lambda: f'position {i} of the '
+            'returned cotangents holds a different scope\'s cotangent when '
+            f'the outside modules live at depths {depths} than when they are '
+            'top-level: '
+            f'{jax.tree_util.tree_map(np.shape, a)} vs '
+            f'{jax.tree_util.tree_map(np.shape, b)}')
+  # ---- functional core: explicit tuple of scopes
+  from flax.core import lift, init as core_init, apply as core_apply
+  cd = list(case['core_depths'])
+  ones = nn.initializers.ones_init()
+
+  def body(scopes, xx):
+    return sum((i + 1.0) * s.param('w', ones, ()) * jnp.sum(xx) ** (i + 1)
+               for i, s in enumerate(scopes))
+
+  def program(scope, xx):
+    scopes = []
+    for i, d in enumerate(cd):
+      s = scope
+      for lvl in range(d):
+        s = s.push(f'b{i}_{lvl}')
+      scopes.append(s)
+    y, bwd = lift.vjp(body, tuple(scopes), xx)
+    v_cts, x_ct = bwd(jnp.ones_like(y))
+    return y, v_cts, x_ct
+
+  with sut('lift.vjp over a tuple of scopes'):
+    _, V = core_init(program)(jax.random.key(0), x)
+    V = jax.tree_util.tree_map(lambda v: v * 2.0, unfreeze(V))
+    y, v_cts, x_ct = core_apply(program)(V, x)
+  sx = float(jnp.sum(x))
+  require(len(v_cts) == len(cd), 'one cotangent tree per scope of the tuple')
+  for i in range(len(cd)):
+    exp = (i + 1.0) * sx ** (i + 1)
+    got_i = float(unfreeze(v_cts[i])['params']['w'])
+    require(np.isclose(got_i, exp, rtol=1e-4, atol=1e-5), lambda: 'lift.vjp '
+            f'over scopes at depths {cd}: cotangent {i} is {got_i}, the '
+            f'derivative w.r.t. the param of scope {i} is {exp}')
+  require(np.isclose(float(y), sum((i + 1.0) * 2.0 * sx ** (i + 1)
+                                   for i in range(len(cd))), rtol=1e-4,
+                     atol=1e-5), 'lift.vjp primal output')
+  ctx.note(labels=[f'outside{len(depths)}', f'core{len(cd)}'],
+           nontrivial=len(set(depths)) >= 2)
